@@ -19,6 +19,7 @@ pub mod c09;
 pub mod c10;
 pub mod c11;
 pub mod c12;
+pub mod structured;
 
 use crate::runner::CheckResult;
 use serde_json::Value;
